@@ -4,6 +4,7 @@ use binary_stream::futures::{
     BinaryReader, BinaryWriter, Decodable, Encodable,
 };
 use sos_core::{
+    device::DevicePublicKey,
     encoding::{decode_uuid, encoding_error},
     UtcDateTime,
 };
@@ -76,6 +77,14 @@ impl Decodable for AuditEvent {
                         to_vault_id,
                         to_secret_id,
                     });
+                } else if flags.contains(AuditLogFlags::DEVICE) {
+                    let public_key =
+                        reader.read_bytes(DevicePublicKey::SIZE).await?;
+                    let public_key: DevicePublicKey = public_key
+                        .as_slice()
+                        .try_into()
+                        .map_err(encoding_error)?;
+                    self.data = Some(AuditData::Device(public_key));
                 }
             }
         } else {
